@@ -88,6 +88,12 @@ def exhaustive(ctx) -> None:
         n, lines, falls = chain_falls_through(func, disc)
         ctx.count("functions")
         if n < floor:
+            if n == 0 and not any(isinstance(x, (ast.Name, ast.Attribute)) and dotted(x) in disc for x in ast.walk(func.node)):
+                # the discriminator is not consulted at all any more: the selection is made from something else
+                ctx.ob("DISPATCH-exhaustive", f"{q}|{'/'.join(sorted(disc))}", func.loc(), False,
+                       f"{func.name} no longer selects its alternative from {sorted(disc)} (the value is not read anywhere in "
+                       f"the function): what is emulated is decided from something that does not identify the case")
+                continue
             raise AnalysisError(f"DISPATCH-exhaustive: {q}: found {n} alternative(s) on {sorted(disc)}, "
                                 f"{floor} confirmed by hand — chain not recognised")
         ctx.ob("DISPATCH-exhaustive", f"{q}|{'/'.join(sorted(disc))}", func.loc(),
@@ -496,3 +502,34 @@ def rejections(ctx) -> None:
                f"{f.name} raises for: {label}" if hit else
                f"{f.name} no longer raises for: {label} — {consequence}")
     ctx.floor("DISPATCH-reject", len(REJECTIONS))
+
+
+def hamiltonian_type_table(ctx) -> None:
+    """PulserData.__init__: the Hamiltonian type handed to the backends is Rydberg exactly for Pulser's interaction type
+    'ising' and XY exactly for 'XY'; anything else raises.  (Pulser's *basis name* carries suffixes such as `_with_error`
+    and does not identify the interaction.)"""
+    prog = ctx.prog
+    f = prog.func("emu_base.pulser_adapter.PulserData.__init__")
+    it = Interp(prog, prog.cls("emu_base.pulser_adapter.PulserData"), inline=lambda c, r, d: False, loop_iters=(1,))
+    rows = {}
+    undecided = 0
+    for p in it.run(f):
+        st = [e for e in p.events if e.kind == "setattr" and e.name == "hamiltonian_type" and e.target[0] == SELF]
+        if p.status != "return" or not st:
+            continue
+        v = strip_typed(st[-1].value)
+        val = v[1].split(".")[-1] if v[0] in ("ref", "ext", "global") else show(v)
+        key = None
+        for c, t in p.cond_log[: st[-1].ncond]:
+            c0 = strip_typed(c)
+            if c0[0] == "cmp" and c0[1] == "==" and t and strip_typed(c0[3])[0] == "const" and "interaction_type" in show(c0[2]):
+                key = strip_typed(c0[3])[1]
+        if key is None:
+            undecided += 1
+        rows.setdefault(key, set()).add(val)
+    ok = rows == {"ising": {"Rydberg"}, "XY": {"XY"}} and undecided == 0
+    ctx.ob("DISPATCH-hamiltonian", "PulserData.__init__", f.loc(), ok,
+           "interaction_type 'ising' → HamiltonianType.Rydberg, 'XY' → HamiltonianType.XY, anything else raises" if ok else
+           f"PulserData.__init__ sets hamiltonian_type as {({str(k): sorted(v) for k, v in rows.items()})} (key = the value "
+           f"interaction_type was tested equal to; None = not tested): a sequence can be emulated with the Hamiltonian of "
+           f"another interaction")
